@@ -134,6 +134,87 @@ fn gen_std_case(t: &mut Tape, lib: &Lib, excluded: &[String]) -> ValCase {
     c
 }
 
+/// near-miss programs: the typing corner cases of C04 (generic binding with unknown-typed
+/// arguments, least common types, multi-parameter compounds, holes and edits) are compiled as
+/// top-level bindings; whatever the compiler ACCEPTS - rightly or wrongly - is instantiated, and
+/// every value must have the shape of the static type the compiler recorded for it
+fn run_near_miss(subs: &[Vec<u8>], ctx: &mut Ctx) -> Result<Vec<CaseOutcome>, HarnessError> {
+    use crate::direct::end_failure;
+    use serde_json::json;
+    let mut snips = vec![];
+    for (i, s) in subs.iter().enumerate() {
+        let mut t = Tape::new(s);
+        if let Some(sn) = super::c04::gen_infer(&mut t, i) {
+            snips.push((i, sn));
+        }
+    }
+    if snips.is_empty() {
+        return Ok(vec![]);
+    }
+    let mut job = Job::new("");
+    job.srcs = vec![super::c04::PRELUDE.to_string()];
+    job.steps = vec![Step::Compile { src: 0 }];
+    for (_, s) in &snips {
+        job.srcs.push(s.src.clone());
+        job.steps.push(Step::Compile { src: job.srcs.len() - 1 });
+    }
+    job.steps.push(Step::Instantiate);
+    job.steps.push(Step::DumpAll);
+    job.cpu_s = 20;
+    let r = ctx.exec(&job)?;
+    let mut outs = vec![];
+    let dead = end_failure(&r);
+    let vars: std::collections::BTreeMap<String, (serde_json::Value, Out)> = match r.step(job.steps.len() - 1) {
+        Out::All { vars } => vars.iter().map(|(n, t, o)| (n.clone(), (t.clone(), (**o).clone()))).collect(),
+        _ => Default::default(),
+    };
+    for (k, (i, s)) in snips.iter().enumerate() {
+        let mut o = CaseOutcome { key: crate::tape::fnv(s.src.as_bytes()), evals: 1, classes: vec!["near_miss".into()], ..Default::default() };
+        let single = || {
+            let mut j = Job::new("");
+            j.srcs = vec![super::c04::PRELUDE.to_string(), s.src.clone()];
+            j.steps = vec![Step::Compile { src: 0 }, Step::Compile { src: 1 }, Step::Instantiate, Step::DumpAll];
+            j
+        };
+        if dead.is_some() || r.steps.iter().any(|x| x.is_panic()) {
+            // judge it alone
+            let j = single();
+            let r1 = ctx.exec(&j)?;
+            o.evals += 1;
+            if let Some(f) = end_failure(&r1) {
+                o.failures.push(f.direct(json!({"form": "no_crash", "job": j})));
+            } else if let Some(p) = r1.steps.iter().find(|x| x.is_panic()) {
+                o.failures.push(Failure::new("panic", format!("{}\n  {}", crate::expect::brief(p), s.src.replace('\n', "\n  "))).direct(json!({"form": "no_crash", "job": j})));
+            } else {
+                o.inconclusive = true;
+            }
+            outs.push(o);
+            continue;
+        }
+        let accepted = matches!(r.step(1 + k), Out::Done);
+        o.classes.push(if accepted { "near_miss:accepted".into() } else { "near_miss:rejected".into() });
+        o.nontrivial = accepted;
+        if accepted {
+            let name = format!("r{i}");
+            if let Some((tyj, out)) = vars.get(&name) {
+                let mut compounds = std::collections::BTreeMap::new();
+                let ty = Ty::from_json(tyj, &mut compounds);
+                if let Out::Value { dump } = out {
+                    if let Err(why) = conforms(dump, &ty, &compounds, 0) {
+                        let j = single();
+                        o.failures.push(
+                            Failure::new("type_confusion", format!("the accepted binding {name} has static type {} but its value does not have that shape: {why}\n  {}", ty.src(), s.src.replace('\n', "\n  ")))
+                                .direct(json!({"form": "c01_conform", "job": j, "name": name})),
+                        );
+                    }
+                }
+            }
+        }
+        outs.push(o);
+    }
+    Ok(outs)
+}
+
 impl Property for C01 {
     fn id(&self) -> &'static str {
         "C01"
@@ -149,14 +230,43 @@ impl Property for C01 {
     }
     fn families(&self, tier: Tier) -> Vec<Family> {
         let k = if tier == Tier::Quick { 1 } else { 25 };
-        vec![Family {
-            name: "std",
-            batches: 700 * k,
-            batch_size: 50,
-            tape_len: 140,
-        }]
+        vec![
+            Family { name: "std", batches: 700 * k, batch_size: 50, tape_len: 140 },
+            Family { name: "near_miss", batches: 300 * k, batch_size: 40, tape_len: 96 },
+        ]
     }
-    fn run_batch(&self, _family: &str, subs: &[Vec<u8>], ctx: &mut Ctx) -> Result<Vec<CaseOutcome>, HarnessError> {
+    fn check_direct(&self, direct: &serde_json::Value, ctx: &mut Ctx) -> Result<Option<Failure>, HarnessError> {
+        if direct["form"].as_str() != Some("c01_conform") {
+            return crate::direct::check_generic(direct, ctx);
+        }
+        let job: Job = serde_json::from_value(direct["job"].clone()).map_err(|e| HarnessError(e.to_string()))?;
+        let r = ctx.exec(&job)?;
+        if let Some(f) = crate::direct::end_failure(&r) {
+            return Ok(Some(f.direct(direct.clone())));
+        }
+        if let Some(p) = r.steps.iter().find(|x| x.is_panic()) {
+            return Ok(Some(Failure::new("panic", crate::expect::brief(p)).direct(direct.clone())));
+        }
+        let name = direct["name"].as_str().unwrap_or("");
+        if let Out::All { vars } = r.step(job.steps.len() - 1) {
+            for (n, tyj, out) in vars {
+                if n == name {
+                    let mut compounds = BTreeMap::new();
+                    let ty = Ty::from_json(tyj, &mut compounds);
+                    if let Out::Value { dump } = &**out {
+                        if let Err(why) = conforms(dump, &ty, &compounds, 0) {
+                            return Ok(Some(Failure::new("type_confusion", why).direct(direct.clone())));
+                        }
+                    }
+                }
+            }
+        }
+        Ok(None)
+    }
+    fn run_batch(&self, family: &str, subs: &[Vec<u8>], ctx: &mut Ctx) -> Result<Vec<CaseOutcome>, HarnessError> {
+        if family == "near_miss" {
+            return run_near_miss(subs, ctx);
+        }
         let l = lib(ctx)?;
         let excluded = ctx.findings.excluded_with_prefix("fn:");
         // cases of one batch share a runtime, hence a limit configuration: the first
